@@ -73,6 +73,9 @@ func (f *Mapcan) Call(s *slip.Scope, args slip.List, depth int) slip.Object {
 			ca[i-1] = l2[n]
 		}
 		r := slip.PrimaryValue(caller.Call(s, ca, d2))
+		if slip.IsExit(r) {
+			return r
+		}
 		switch tr := r.(type) {
 		case nil:
 			// ok but nothing to append
